@@ -356,6 +356,19 @@ let () =
     Printf.sprintf "%d %d %d %d %d premul=%b grad=%b" (int_of_z g.gp_cbase) (int_of_z g.gp_nbase) (int_of_z g.gp_shape)
       (int_of_z g.gp_spread) (int_of_z g.gp_nstops) (valid_premul c) (valid_gradient c))
 
+
+(* ---- pixel-level metamorphic checks (C16): pixels are not modelled; the model states the expected verdict ---- *)
+let () =
+  reg "PIXOFF" (fun _ -> "offset=same outside=untouched");
+  reg "PIXEQ" (fun _ -> "pixels=same");
+  reg "PIXOP" (fun a ->
+    match a with
+    | _ :: w :: h :: toks ->
+        let s = run_ren "0" "0" w h toks in
+        let n = List.length (List.filter (fun c -> match c with RDraw _ -> true | _ -> false) s.r_log) in
+        Printf.sprintf "drawop=first-only paths=%d" n
+    | _ -> failwith "PIXOP")
+
 let () =
   let out = Buffer.create (1 lsl 16) in
   (try
